@@ -34,7 +34,7 @@ NEG = {"swap_fwd_rev": "InvRowsFeasible", "no_roundup": "InvRowCount", "same_cha
 
 TIERS = {
     "quick": {"design": {"NInst": 24, "NCfg": 3}, "cases": {"NInst": 150, "NCfg": 4}, "neg": 2, "item_timeout": 120},
-    "thorough": {"design": {"NInst": 80, "NCfg": 6}, "cases": {"NInst": 2400, "NCfg": 6}, "neg": 7, "item_timeout": 300},
+    "thorough": {"design": {"NInst": 80, "NCfg": 6}, "cases": {"NInst": 1800, "NCfg": 6}, "neg": 7, "item_timeout": 300},
 }
 
 PALETTES = [
@@ -194,7 +194,16 @@ def _one_run(model, cfg, want_sampler):
         df = s.sample(cfg["n"], fluxes=cfg["fluxes"])
         return "ok", df, s
     except Exception as e:      # the outcome of the call under test
+        _one_run.last_message = str(e)
         return type(e).__name__, None, None
+
+
+def _refusal_class(msg):
+    if "single point" in msg:
+        return "single_point"
+    if "2 search directions" in msg:
+        return "two_directions"
+    return "other"
 
 
 def drive_case(item, progress=None):
@@ -209,6 +218,7 @@ def drive_case(item, progress=None):
     probes = case["probes"]
     runs = []
     validator = None
+    solved = False
     for q, cfg in enumerate(case["cfgs"]):
         if progress:
             progress(q)
@@ -217,7 +227,12 @@ def drive_case(item, progress=None):
         post = model_digest(model)
         run = {"cfg": cfg, "outcome": outcome, "outcome2": "-", "cols": [], "rows": [], "codes": [], "digest": "-",
                "digest2": "-", "model_pre": pre, "model_post": post,
-               "pf": [["-"] for _ in probes], "pv": [["-"] for _ in probes], "msg": "-"}
+               "pf": [["-"] for _ in probes], "pv": [["-"] for _ in probes], "msg": "-",
+               # history of the caller's model at the two runs: never solved / solved (hidden solver state)
+               "hist": ["solved" if solved else "pristine", "solved"]}
+        solved = True
+        if outcome == "ValueError":
+            run["msg"] = _refusal_class(getattr(_one_run, "last_message", ""))
         if outcome == "ok":
             vals = np.asarray(df.values, dtype=float)
             run["cols"] = [tokens[bool(cfg["fluxes"])].get(str(c), "?") for c in df.columns]
@@ -310,7 +325,8 @@ def _crashed(case, tid, pal, r):
     cfg = case["cfgs"][min(q, len(case["cfgs"]) - 1)]
     run = {"cfg": cfg, "outcome": "crash:" + str(r["crash"]), "outcome2": "-", "cols": [], "rows": [], "codes": [],
            "digest": "-", "digest2": "-", "model_pre": "-", "model_post": "-",
-           "pf": [["-"] for _ in case["probes"]], "pv": [["-"] for _ in case["probes"]], "msg": "-"}
+           "pf": [["-"] for _ in case["probes"]], "pv": [["-"] for _ in case["probes"]], "msg": "-",
+           "hist": ["-", "-"]}
     return {"tid": tid, "inst": case["inst"], "probes": case["probes"], "runs": [run], "palette": pal["name"]}
 
 
